@@ -37,6 +37,12 @@ func c06Gen(t *rapid.T) any {
 		case 3:
 			op.Up, op.Down = 1<<20, 1<<20
 		}
+		// a connection that is still used well after it was established, with a slow reader
+		if pct(t, "late-use", 15) {
+			op.HoldMs = oneOf(t, "hold", []int{1000, 5500, 7000})
+			op.ReadLagMs = oneOf(t, "lag", []int{1, 500, 3000})
+			op.Down = 300000 + uniform(t, "bigdown", 4096)*200
+		}
 		c.Ops = append(c.Ops, op)
 	}
 	nd := uniform(t, "ndispense", 7)
